@@ -169,13 +169,15 @@ def include_items(quote_ok=None, angle_ok=None, dangling=None):
     return st.one_of(plain, plain, plain, computed)
 
 
-def header_files(idx, names=NAMES, include_strategy=None, depth=2, selfname=None):
+def header_files(idx, names=NAMES, include_strategy=None, depth=2, selfname=None, unknown=None):
     """A header: unguarded (leaf), #ifndef-guarded, #pragma once, or "two-pass":
     a header that includes itself once and takes its #else branch the second time."""
     @st.composite
     def hdr(draw):
         guard = draw(st.sampled_from(["none", "ifndef", "once", "ifndef"] + (["twopass"] if selfname else [])))
         extra = include_strategy if guard != "none" else None
+        if unknown is not None:
+            extra = unknown if extra is None else st.one_of(extra, extra, extra, unknown)
         body = draw(item_lists(depth, names, extra=extra, max_items=4, raw=False))
         if not any(it[0] == "code" for it in body):
             body = [["code", 1]] + body
@@ -229,7 +231,7 @@ def include_tree_cases(dangling=None, unknown=None):
         for d in HDR_DIRS:
             for n in HDR_NAMES:
                 if (d, n) in present:
-                    tree[f"{d}/{n}"] = draw(header_files(k, include_strategy=include_items(quote_ok(d), angle_ok, dangling), selfname=n))
+                    tree[f"{d}/{n}"] = draw(header_files(k, include_strategy=include_items(quote_ok(d), angle_ok, dangling), selfname=n, unknown=unknown))
                 k += 1
         for m in mains:
             mdir = m.rsplit("/", 1)[0]
